@@ -18,6 +18,11 @@ VALID_RT = [x for x in range(60) if x not in (0x14, 0x18, 0x1D, 0x1E, 0x24, 0x25
 REAL_WORDS = [0x7FFFFFFFFFFFFFFF, 0xFFFFFFFFFFFFFFFC, 0x7FFFFFFFFFFFFFFB, 0x0000000000000001, 0x8000000000000000, 0x00FFFFFFFFFFFFFF,
               0x4110000000000000, 0x0010000000000000, 0x7F10000000000000, 0x7F00000000000001, 0x40FFFFFFFFFFFFFF, 0x4100000000000001, 0x41000000000000FF]
 
+# generator audit 2026-10-02: words whose mantissa is zero although exponent / sign are not (they denote +-0 and are not what the
+# writer produces), the smallest and largest un-normalised words
+REAL_WORDS_2 = [0x4100000000000000, 0xC100000000000000, 0x7F00000000000000, 0xFF00000000000000, 0x0100000000000000,
+                0x4000000000000001, 0x400FFFFFFFFFFFFF, 0x7F0FFFFFFFFFFFFF]
+
 def read_str_repaired():
     """textual marker, re-read from the source on every run: does GdsReader::read_str guard `data[len - 1]` with `len > 0`?
     (commit a280dfb). The verdict does not depend on it (a panic fails the property whatever the model says); it selects
@@ -64,6 +69,15 @@ def base_streams(chk, g, n):
     res = harness("c01", [{"op": "write", "lib": to_json(l)} for l in libs])
     return [bytes.fromhex(r["w"]["ok"]) for r in res if "w" in r and "ok" in r["w"]]
 
+def directed_streams(chk):
+    """impl-written streams of the directed libraries of gdscommon (optional fields holding their default value, STRANS flag
+    combinations, repeated names / elements / attributes, white space and control characters, 48 properties): read, written again
+    and re-read INTACT (the 'every library the reader returns can be written again and read back' half of the property on
+    library values the random generator hardly produces)"""
+    ds = [(fam, name, l) for fam, name, l in directed_libs(chk.seed, chk.tier == "quick", many=("many_props",)) if fam != "mid_len"]
+    res = harness("c01", [{"op": "write", "lib": to_json(l)} for _, _, l in ds])
+    return [(fam, bytes.fromhex(r["w"]["ok"])) for (fam, _, _), r in zip(ds, res) if "w" in r and "ok" in r["w"]]
+
 def gen_cases(chk):
     quick = chk.tier == "quick"
     r = chk.rng
@@ -81,6 +95,9 @@ def gen_cases(chk):
     for s in streams:
         cur[0] = s
         add("intact", s)
+    cur[0] = None
+    for fam, s in directed_streams(chk):
+        add("intact_directed_" + fam, s)
     # 1. every truncation point (small streams), record boundaries +-1 (all streams, foreign files)
     # budgets (thorough): the evaluation costs about 80 us of coqc time per stream byte, so the tiers are sized in bytes:
     # quick ~3 MB, thorough ~400 MB of streams (most of it shared: a case is written as an edit of its base stream)
@@ -177,7 +194,7 @@ def gen_cases(chk):
     add("wellformed_in_lib", in_lib(rec(0x36, 2, b"\0\1"), rec(0x37, 6, b"m1")))
     add("wellformed_in_lib", in_lib(rec(0x37, 6, b"m1"), rec(0x38, 0)))
     # 4. reals: special eight-byte words in UNITS / MAG / ANGLE (incl. the known class words)
-    for w in REAL_WORDS:
+    for w in REAL_WORDS + REAL_WORDS_2:
         wb = w.to_bytes(8, "big")
         add("real_word", rec(0, 2, b"\0\3") + rec(1, 2, bytes(24)) + rec(2, 6, b"ab") + rec(3, 5, wb + wb) + rec(4, 0))
         add("real_word", in_text(rec(0x1A, 1, b"\x80\x06"), rec(0x1B, 5, wb)))
@@ -187,11 +204,28 @@ def gen_cases(chk):
         add("string_payload", rec(0, 2, b"\0\3") + rec(1, 2, bytes(24)) + rec(2, 6, pl) + rec(3, 5, bytes(16)) + rec(4, 0))
         add("string_payload", in_text(rec(0x19, 6, pl)))
         add("string_payload", in_boundary(rec(0x2B, 2, b"\0\1"), rec(0x2C, 6, pl)))
-    for n in (0, 2, 4, 6, 10, 12, 14):
+    for n in (0, 2, 4, 6, 10, 12, 14, 8, 16, 24):
         add("xy_len", in_struct(rec(8, 0), rec(0x0D, 2, b"\0\1"), rec(0x0E, 2, b"\0\2"), rec(0x10, 3, bytes(n)), rec(0x11, 0)))
         add("xy_len", in_struct(rec(0x0C, 0), rec(0x0D, 2, b"\0\1"), rec(0x16, 2, b"\0\2"), rec(0x10, 3, bytes(n)), rec(0x19, 6, b"tx"), rec(0x11, 0)))
         add("xy_len", in_struct(rec(0x2D, 0), rec(0x0D, 2, b"\0\1"), rec(0x2E, 2, b"\0\2"), rec(0x10, 3, bytes(n + 32)), rec(0x11, 0)))
         add("xy_len", in_struct(rec(0x0B, 0), rec(0x12, 6, b"cc"), rec(0x13, 2, bytes(4)), rec(0x10, 3, bytes(n + 16)), rec(0x11, 0)))
+    # 5b. records of the largest size the length field can express (payload 65530: the reader's buffer is 65537 bytes) and at the
+    # signed-16-bit boundary (record length 32768), complete and cut short; a short string after a long one (shared buffer)
+    def text_with(*strs):
+        return b"".join(rec(0x0C, 0) + rec(0x0D, 2, b"\0\1") + rec(0x16, 2, b"\0\2") + rec(0x10, 3, bytes(8)) + rec(0x19, 6, st) + rec(0x11, 0) for st in strs)
+    big = b"s" * 65529 + b"e"
+    add("long_record", in_struct(text_with(big)))
+    add("long_record", in_struct(text_with(big, b"ab", b"")))
+    add("long_record", in_struct(text_with(b"s" * 32763 + b"e")))
+    add("long_record", in_struct(text_with(b"s" * 32766 + b"e\0")))
+    add("long_record", rec(0, 2, b"\0\3") + rec(1, 2, bytes(24)) + rec(2, 6, big) + rec(3, 5, bytes(16)) + rec(4, 0))
+    add("long_record", in_boundary(rec(0x2B, 2, b"\0\1"), rec(0x2C, 6, big)))
+    add("long_record", in_struct(rec(8, 0), rec(0x0D, 2, b"\0\1"), rec(0x0E, 2, b"\0\2"), rec(0x10, 3, b"\x01" * 65528), rec(0x11, 0)))
+    add("long_record", in_struct(rec(0x15, 0), rec(0x0D, 2, b"\0\1"), rec(0x2A, 2, b"\0\2"), rec(0x10, 3, b"\xff" * 65524), rec(0x11, 0)))
+    add("long_record", in_struct(rec(9, 0), rec(0x0D, 2, b"\0\1"), rec(0x0E, 2, b"\0\2"), rec(0x10, 3, b"\x02" * 32768), rec(0x11, 0)))
+    lt = in_struct(text_with(big))
+    add("long_record", lt[:len(lt) - 20])
+    add("long_record", lt[:70000 - 4464])
     # missing required fields, duplicated setters, ENDLIB in odd places
     add("structural", rec(4, 0))
     add("structural", rec(0, 2, b"\0\3") + rec(4, 0))
@@ -370,15 +404,28 @@ def guards(chk):
     """impl-only guards: big inputs one per process with a timeout (hang / stack overflow / abort), and a linearity measurement"""
     unit = rec(5, 2, bytes(24)) + rec(6, 6, b"cell") + rec(8, 0) + rec(0x0D, 2, b"\0\1") + rec(0x0E, 2, b"\0\2") + rec(0x10, 3, bytes(40)) + rec(0x11, 0) + rec(7, 0)
     ns = [2000, 4000, 8000, 16000, 32000]
-    cases = [{"op": "read_time", "pre": PROLOG.hex(), "unit": unit.hex(), "post": rec(4, 0).hex(), "n": n} for n in ns]
+    cases = [{"op": "read_time", "pre": PROLOG.hex(), "unit": unit.hex(), "post": rec(4, 0).hex(), "n": n, "expect": "ok:%d" % n} for n in ns]
     # adversarial shapes: unterminated, huge element, huge strans chain, no ENDLIB
     mag = rec(0x1B, 5, bytes(8))
     cases.append({"op": "read_time", "pre": (PROLOG + rec(5, 2, bytes(24)) + rec(6, 6, b"cell") + rec(0x0C, 0) + rec(0x1A, 1, b"\0\0")).hex(), "unit": mag.hex(), "post": b"".hex(), "n": 200000})
     cases.append({"op": "read_time", "pre": (PROLOG + rec(5, 2, bytes(24)) + rec(6, 6, b"cell") + rec(8, 0)).hex(), "unit": rec(0x0D, 2, b"\0\1").hex(), "post": b"".hex(), "n": 300000})
     cases.append({"op": "read_time", "pre": PROLOG.hex(), "unit": rec(2, 6, b"ab").hex(), "post": b"".hex(), "n": 300000})
     cases.append({"op": "read_time", "pre": b"".hex(), "unit": b"\xff".hex(), "post": b"".hex(), "n": 2000000})
+    # generator audit 2026-10-02: time against the number of properties of ONE element and of elements of ONE struct (the series
+    # above grows the number of structs only); three runs per size, the fastest counts (see run)
+    bgn = PROLOG + rec(5, 2, bytes(24)) + rec(6, 6, b"cell")
+    el = rec(8, 0) + rec(0x0D, 2, b"\0\1") + rec(0x0E, 2, b"\0\2") + rec(0x10, 3, bytes(8)) + rec(0x11, 0)
+    series = {}
+    for nm, pre, un, post in (("props_of_one_element", bgn + el[:-4], rec(0x2B, 2, b"\0\1") + rec(0x2C, 6, b"value!"), rec(0x11, 0) + rec(7, 0) + rec(4, 0)),
+                              ("elements_of_one_struct", bgn, el, rec(7, 0) + rec(4, 0))):
+        series[nm] = []
+        for n in NS2:
+            for _ in range(3):
+                series[nm].append(len(cases))
+                cases.append({"op": "read_time", "pre": pre.hex(), "unit": un.hex(), "post": post.hex(), "n": n, "expect": "ok:1", "series": nm})
     res = harness("c01", cases, timeout=60, chunk=1)
-    return ns, cases, res
+    return ns, cases, res, series
+NS2 = [4000, 16000, 64000]
 
 def classify(c, impl):
     if isinstance(impl, dict) and impl.get("reals") and impl.get("eq") is False:
@@ -422,7 +469,7 @@ def run(chk, replay=None):
     chk.cov["input_distribution"] = dist
     chk.cov["rule"] = ("fault injection per DESIGN.md C10 on impl-written streams of generated libraries and on the repository's GDSII files: truncation at every byte / around every record boundary, "
                        "length-field faults, zero-length payloads for every record and data type in four contexts, record/data type byte replaced, records deleted/duplicated/swapped/spliced, "
-                       "special real words, string and XY payload variants, random noise; non-trivial = at least one complete record header; distinct by byte string")
+                       "special real words, string and XY payload variants, records of the largest size, the directed libraries of C01 read intact, random noise; non-trivial = at least one complete record header; distinct by byte string")
     chk.cov["evaluations"] = len(cases)
     chk.cov["distinct_nontrivial"] = len({c["bytes"] for c in cases if len(c["bytes"]) >= 4})
     chk.cov["traces_validated_against_impl"] = sum(1 for r in results if r[0] == 0)
@@ -430,10 +477,14 @@ def run(chk, replay=None):
     chk.add_samples([{"kind": c["kind"], "len": len(c["bytes"]), "head": c["bytes"][:48].hex(), "impl": r[1], "code": r[0]}
                      for c, r in list(zip(cases, results))[:: max(1, len(cases) // 6)]], k=6)
     if not replay:
-        ns, gcases, gres = guards(chk)
+        ns, gcases, gres, series = guards(chk)
         meas = []
         for c, r in zip(gcases, gres):
             meas.append({"n": c["n"], "unit_len": len(c["unit"]) // 2, "len": r.get("len"), "ns": r.get("ns"), "r": r.get("r"), "crash": r.get("crash"), "panic": r.get("panic")})
+            if c.get("series"):
+                meas[-1]["series"] = c["series"]
+            if c.get("expect") and "r" in r and r["r"] != c["expect"] and not str(r["r"]).startswith("panic"):
+                chk.broken.append("correspondence C10: a well-formed stream of %d copies of %s is read as %s, expected %s" % (c["n"], c["unit"][:60], r["r"], c["expect"]))
             if "crash" in r or "panic" in r or str(r.get("r", "")).startswith("panic"):
                 chk.violation("GDSII reader crashed, hung or panicked on a large input (%s copies of %s after %s): %s" % (c["n"], c["unit"][:40], c["pre"][:40], json.dumps(r)[:200]),
                               {"guard_case": c}, suffix="-guard")
@@ -445,6 +496,18 @@ def run(chk, replay=None):
             if ratio > 4 * ns[-1] / ns[0]:
                 chk.violation("GDSII reader time is not proportional to input length: %s structs take %d ns, %s take %d ns" % (ns[0], t[0], ns[-1], t[-1]),
                               {"timing": meas}, suffix="-time")
+    if not replay:
+        for nm, ix in series.items():
+            best = {}
+            for i in ix:
+                if gres[i].get("ns"):
+                    best[gcases[i]["n"]] = min(best.get(gcases[i]["n"], 1 << 62), gres[i]["ns"])
+            if len(best) == len(NS2):
+                ratio = best[NS2[-1]] / max(1, best[NS2[0]])
+                chk.cov["time_ratio_%dx_%s" % (NS2[-1] // NS2[0], nm)] = round(ratio, 2)
+                if ratio > 4 * NS2[-1] / NS2[0]:
+                    chk.violation("GDSII reader time is not proportional to input length (%s): %d take %d ns, %d take %d ns" % (nm, NS2[0], best[NS2[0]], NS2[-1], best[NS2[-1]]),
+                                  {"timing": [m for m in meas if m.get("series") == nm]}, suffix="-time-" + nm)
     report(chk, chk.pid, "GDSII reader on damaged / arbitrary bytes", cases, results,
            classify=classify, to_replay=lambda c: c["bytes"].hex(), size=lambda c: len(c["bytes"]),
            describe=lambda c: "%s bytes=%s" % (c["kind"], c["bytes"].hex()[:400]))
